@@ -186,9 +186,6 @@ func (l c06Lit) class() string {
 		}
 		m, f := l.mant()
 		p := new(big.Int).Mul(m, l.mulVal())
-		if c06SigDigits(p) > 34 {
-			return "si-multiplier-mantissa-over-34-digits"
-		}
 		if new(big.Int).Mod(p, c06Pow10(f)).Sign() != 0 {
 			return "si-fraction-not-truncated"
 		}
